@@ -113,7 +113,7 @@ func runCase(t *testing.T, c *Case, sch scheduler, maxMoves int, drain bool, emi
 			for range ins {
 				decoyIns = append(decoyIns, make(chan int))
 			}
-			build(dctx, &ds, decoyIns, &calls{gates: map[int]chan struct{}{}, start: start})
+			build(dctx, &ds, decoyIns, &calls{decoy: true, gates: map[int]chan struct{}{}, start: start})
 		}
 		c.OCaps = nil
 		for _, o := range outs {
